@@ -261,6 +261,9 @@ func (r *walkerResolver) typeOf(t walkerTy) reflect.Type {
 
 // structOfOK: reflect.StructOf cannot make unexported or embedded fields.
 func walkerStructOfOK(scn *walkerScn) bool {
+	if walkerCyclic(scn) {
+		return false
+	}
 	for _, t := range scn.Types {
 		for _, f := range t.Fields {
 			if !f.Exp || f.Emb {
@@ -269,6 +272,64 @@ func walkerStructOfOK(scn *walkerScn) bool {
 		}
 	}
 	return true
+}
+
+// walkerUsesProbes: some rule of the scenario names a per-call probe function.
+func walkerUsesProbes(scn *walkerScn) bool {
+	for _, t := range scn.Types {
+		for _, f := range t.Fields {
+			for _, r := range f.Rules {
+				if r.Key == "p_ok" || r.Key == "p_bad" {
+					return true
+				}
+			}
+		}
+	}
+	return false
+}
+
+// walkerCyclic: the type table refers back to a type it is reached from (recursive types exist as named types only).
+func walkerCyclic(scn *walkerScn) bool {
+	state := make([]int, len(scn.Types)+1) // 0 unseen, 1 on the path, 2 done
+	var structsOf func(t walkerTy, out *[]int)
+	structsOf = func(t walkerTy, out *[]int) {
+		if t.K == "struct" {
+			*out = append(*out, t.N)
+		}
+		for _, o := range t.Of {
+			structsOf(o, out)
+		}
+	}
+	var visit func(i int) bool
+	visit = func(i int) bool {
+		if i < 1 || i > len(scn.Types) {
+			return false
+		}
+		if state[i] == 1 {
+			return true
+		}
+		if state[i] == 2 {
+			return false
+		}
+		state[i] = 1
+		for _, f := range scn.Types[i-1].Fields {
+			var refs []int
+			structsOf(f.Ty, &refs)
+			for _, r := range refs {
+				if visit(r) {
+					return true
+				}
+			}
+		}
+		state[i] = 2
+		return false
+	}
+	for i := 1; i <= len(scn.Types); i++ {
+		if visit(i) {
+			return true
+		}
+	}
+	return false
 }
 
 const walkerLetters = "abcdefghijklmnopqrstuvwxyz"
@@ -513,6 +574,8 @@ func walkerRun(scn *walkerScn, style, carrier string, markers []walkerMarker) (r
 		}
 	}
 	fns := valid.Name2FnMap{"p_ok": probe(false), "p_bad": probe(true)}
+	// a scenario whose rules are all built in is validated through the plain entry points: no function, no rule set
+	plain := !walkerUsesProbes(scn)
 
 	var call func() error
 	rootIdx := walkerRootStruct(scn.RootTy)
@@ -549,6 +612,9 @@ func walkerRun(scn *walkerScn, style, carrier string, markers []walkerMarker) (r
 				abs.fromPrefix, abs.toPrefix = "map[k1]", specName
 			}
 			call = func() error {
+				if plain {
+					return valid.ValidateStruct(in)
+				}
 				vs := valid.NewVStruct()
 				for n, f := range fns {
 					vs.SetValidFn(n, f)
@@ -558,7 +624,12 @@ func walkerRun(scn *walkerScn, style, carrier string, markers []walkerMarker) (r
 		case "gen":
 			in = src.Interface()
 			abs.strip = walkerGenPrefix(rsv.named)
-			call = func() error { return valid.StructForFns(in, nil, fns) }
+			call = func() error {
+				if plain {
+					return valid.Struct(in)
+				}
+				return valid.StructForFns(in, nil, fns)
+			}
 		case "rm":
 			if k == "struct" && len(scn.Types[0].Fields)%2 == 1 { // both ways of passing a struct
 				p := reflect.New(src.Type())
